@@ -12,6 +12,7 @@ import impl
 ID = "C15"
 THEOREMS = ["extract_exact", "extract_strips_all", "stripMD_frame", "collectMD_outer_first",
             "removeEmpty_noEmpty", "removeEmpty_frame", "removeEmpty_idempotent"]
+LEANCHECKER_MODULES = ["Fadl.Props.C15"]  # re-checked by leanchecker in the thorough tier
 RULE = (
     "seeded queries (gen/expr.py) into which MetaData wrappers are inserted at random expression "
     "positions: stream sources, operator arguments, inside lambda bodies, adjacent (wrapper of a wrapper), "
